@@ -276,8 +276,12 @@ def build_cases(tier, rng):
     # branch and bound has to improve on its initial bound, through the almost-simplicial reduction and the pruning
     hard = json.load(open(os.path.join(VERIF, "corpus", "C10_hard_dense.json")))
     if tier == "quick": hard = [h for h in hard if h["n"] <= 10][:int(os.environ.get("VERIF_C10_HARD", "70"))]
+    # and the 3000 graphs (9..10 vertices) with the longest branch-and-bound searches (number of bb() calls) among
+    # 84 000 such graphs found by a second search (corpus/C10_hard_search.json, sorted by search effort)
+    hard2 = json.load(open(os.path.join(VERIF, "corpus", "C10_hard_search.json")))
+    hard = hard + (hard2[:160] if tier == "quick" else hard2)
     for h in hard:
-        cases.append(Case(mk(h["n"], [tuple(e) for e in h["edges"]], h["order"]), 0, "dense%d" % h["n"], methods=["min_fill", "quickbb"], tw=h["n"] <= TW_MAX))
+        cases.append(Case(mk(h["n"], [tuple(e) for e in h["edges"]], h["order"]), 0, "dense%d" % h["n"], methods=["min_fill", "quickbb"], tw=h["n"] <= 10))
     for fn, g, tw, meths in bench_graphs():
         # methods as in /repo/test/test_factorize.py
         cases.append(Case(g, 0, "bench:" + fn, expect=tw, methods=meths, model=True, helpers=True))
